@@ -35,9 +35,6 @@ def run(ctx, ss):
     ctx.guard("C05.5", lambda c, s: _as(c, s, c06_5, "C05.5"), ss)
     # C05.7 'wherever in the file(s) the definition is placed': the input files are assembled completely, with a line break
     # after each (C02.6-C02.8), and nothing on the reading path remembers an earlier input (shared.py)
-    from .c02 import p6, p7, p8
-    for f_ in (p6, p7, p8):
-        ctx.guard("C05.7", lambda c, s, f_=f_: _as(c, s, f_, "C05.7"), ss)
     from .shared import reading_path
     ctx.guard("C05.7", reading_path, ss, "C05.7", ["DecFileParser.dict_definitions", "DecFileParser._dict_raw_model_aliases", "DecFileParser.dict_model_aliases",
                                                   "DecFileParser.list_decay_modes", "DecFileParser._decay_mode_details"], "a Define / ModelAlias expansion")
